@@ -775,6 +775,14 @@ class SyncWorld(World):
                 self.out.append({'k': 'keyerr', 's': 0})
         return self.api(run)
 
+    def app_shutdown(self, cid):
+        self.shut = True
+
+        def call():
+            self.server.shutdown()
+            self.out.append({'k': 'ret', 'cid': cid})
+        return self.api(call)
+
     def app_save_session(self, slot, tok):
         def call():
             try:
@@ -1143,6 +1151,14 @@ class AsyncWorld(World):
             except KeyError:
                 self.out.append({'k': 'keyerr', 's': 0})
         return self.api(run)
+
+    def app_shutdown(self, cid):
+        self.shut = True
+
+        async def call():
+            await self.server.shutdown()
+            self.out.append({'k': 'ret', 'cid': cid})
+        return self.api(call)
 
     def app_save_session(self, slot, tok):
         async def call():
